@@ -543,25 +543,43 @@ func (e *env) oneMessage(i int, perRegion int) {
 		m.HeaderAndBody = rebuildHB(h, append(append([]byte(nil), body...), 0))
 		must("body-grown", "ver/mut-body", m, key.Public(), ad, true)
 	}
-	// crafted boundary shift: associated data that starts with an encoded `header` field whose
-	// associated_data_length matches what remains
+	// crafted boundary shift: associated data that starts with encoded HeaderAndBody fields (a second
+	// `header` field whose associated_data_length matches what remains, optionally preceded by a second
+	// `body` field or an unknown field); what remains may be empty
 	if i%4 == 0 {
-		tail := r.Bytes(1 + r.Intn(30))
+		tail := r.Bytes(r.Intn(30))
+		if r.Chance(30) {
+			tail = nil
+		}
 		hX := h
 		hX.meta = []byte("swapped")
 		hX.adLen = len(tail)
 		rawHX, _ := proto.Marshal(&cryptopb.Header{SignatureAlgorithm: cryptopb.SignatureAlgorithm(hX.algo),
 			VerificationKeyId: hX.keyID, Metadata: hX.meta, AssociatedDataLength: int32(hX.adLen)})
 		x, _ := proto.Marshal(&cryptopb.HeaderAndBody{Header: rawHX})
+		variant := "header"
+		switch r.Intn(4) {
+		case 1: // body field first
+			b2, _ := proto.Marshal(&cryptopb.HeaderAndBody{Body: []byte("other body")})
+			x = concat(b2, x)
+			variant = "body+header"
+		case 2: // unknown field (number 7, varint) first
+			x = concat([]byte{0x38, 0x01}, x)
+			variant = "unknown+header"
+		}
 		ad2 := [][]byte{x, tail}
 		h3 := h
 		h3.adLen = len(x) + len(tail)
 		m3 := e.encOp(h3, body, key, ad2, "enc/ok/crafted-ad")
 		if m3 != nil {
 			forged := &cryptopb.SignedMessage{HeaderAndBody: concat(m3.HeaderAndBody, x), Signature: m3.Signature}
-			res := e.verOp(forged, key.Public(), [][]byte{tail}, "ver/boundary-crafted", true)
+			tag := "ver/boundary-crafted/" + variant
+			if len(tail) == 0 {
+				tag += "/empty-rest"
+			}
+			res := e.verOp(forged, key.Public(), [][]byte{tail}, tag, true)
 			if res.ok {
-				d := replay("the leading "+fmt.Sprint(len(x))+" bytes of the associated data (an encoded HeaderAndBody.header field) moved to the end of HeaderAndBody",
+				d := replay("the leading "+fmt.Sprint(len(x))+" bytes of the associated data (encoded HeaderAndBody fields: "+variant+") moved to the end of HeaderAndBody",
 					forged, [][]byte{tail}, map[string]any{"returned": fmt.Sprintf("%+v", res.msg)})
 				d["ad"] = adWords(ad2)
 				d["ad_len"] = h3.adLen
